@@ -1,8 +1,11 @@
 (** C11 — parse structure is invariant under layout and keyword case. Pinned statements only.
-    Kernel lemmas about the pieces the invariance rests on, and the conditional theorem that
-    lifts engine non-interference to every combination of the property's perturbations.
-    Non-interference of the real combinator engine is not proved here (claimed level: other);
-    it is explored by the harness on the corpus. *)
+    Kernel lemmas about the pieces the invariance rests on, the conditional theorem that lifts
+    engine non-interference to every combination of the property's perturbations, and (at the end)
+    layout non-interference of the parser-engine interpreter [Pem.Model] itself: a theorem for every
+    grammar graph that passes the decidable side condition [gap_safe_b] (checked by [vm_compute] on
+    each dumped dialect graph).  The interpreter is tied to the real parser by the Pem
+    correspondence; the lexer's half (which texts lex to aligned token lists) is observed by the
+    differential exploration. *)
 From Sq Require Import Base.Bytes Layout.Model Layout.Proofs.
 
 (** The gap-skipping helpers read only the [is_code] flags ... *)
@@ -129,3 +132,97 @@ Theorem C11_from_engine : forall E kw x y,
   engine_noninterference E kw -> related kw x y -> shape (E x) = shape (E y).
 Proof. exact invariance_from_engine. Qed.
 Print Assumptions C11_from_engine.
+
+(** * Layout non-interference of the parser-engine interpreter (Pem)
+
+    [lleft bs] / [lright bs]: two token lists aligned block by block - a significant token (code or
+    meta) kept as it is, or a non-empty run of gap tokens (whitespace, newline, comment) replaced by
+    another non-empty run whose last token is whitespace/newline iff the original's is; every gap
+    token invisible to the graph ([gap_ok_b]: no first-token hint, typed parser or node kind
+    mentions it).  [Rb bs]: corresponding positions (block boundaries).  For every graph with
+    [static_ok_b g U] (bracket ends are single tokens; every option handed to [longest_match]
+    returns matches that start where it was asked), every fuel, all regex oracle tables that agree
+    on kept tokens and reject gap tokens: the same outcome and, on success, match trees that agree
+    node for node with corresponding span ends and insert positions. *)
+From Coq Require FMapPositive.
+From Sq Require Pem.Model Pem.LayoutRel Pem.LayoutSim Pem.LayoutInv Pem.LayoutEx.
+
+Theorem C11_layout_simulation : forall g U bs rx rx',
+  Pem.LayoutRel.static_ok_b g U = true -> Forall (Pem.LayoutInv.blk_ok g) bs -> Pem.LayoutInv.rx_compat bs rx rx' ->
+  forall fuel s s' e e', Pem.LayoutInv.Rb bs s s' -> Pem.LayoutInv.Rb bs e e' ->
+  Pem.LayoutSim.res_sim (Pem.LayoutSim.mr_sim (Pem.LayoutInv.Rb bs))
+    (Pem.Model.parse_root g (Pem.Model.toks_of_list (Pem.LayoutInv.lleft bs)) rx fuel s e)
+    (Pem.Model.parse_root g (Pem.Model.toks_of_list (Pem.LayoutInv.lright bs)) rx' fuel s' e').
+Proof. exact Pem.LayoutInv.parse_root_layout_sim. Qed.
+Print Assumptions C11_layout_simulation.
+
+(** The layout clause of the property on the interpreter: if the root grammar matches the code span
+    of the first list without unparsable sections, it matches the code span of the second list,
+    again without unparsable sections, with the same code view (node kinds over code-token ranks). *)
+Theorem C11_layout_invariant : forall g bs rx rx' fuel m,
+  Pem.LayoutRel.gap_safe_b g = true -> Forall (Pem.LayoutInv.blk_ok g) bs -> Pem.LayoutInv.rx_compat bs rx rx' ->
+  Pem.Model.parse_root g (Pem.Model.toks_of_list (Pem.LayoutInv.lleft bs)) rx fuel
+    (Pem.LayoutInv.cstart (Pem.LayoutInv.lleft bs)) (Pem.LayoutInv.cend (Pem.LayoutInv.lleft bs)) = Pem.Model.ROk m ->
+  Pem.LayoutInv.clean_b g m = true ->
+  exists m',
+    Pem.Model.parse_root g (Pem.Model.toks_of_list (Pem.LayoutInv.lright bs)) rx' fuel
+      (Pem.LayoutInv.cstart (Pem.LayoutInv.lright bs)) (Pem.LayoutInv.cend (Pem.LayoutInv.lright bs)) = Pem.Model.ROk m'
+    /\ Pem.LayoutInv.clean_b g m' = true
+    /\ Pem.LayoutInv.cview (Pem.LayoutInv.lright bs) m' = Pem.LayoutInv.cview (Pem.LayoutInv.lleft bs) m.
+Proof. exact Pem.LayoutInv.pem_layout_invariant. Qed.
+Print Assumptions C11_layout_invariant.
+
+(** The same on plain token lists, with the alignment decided by [layout_related_b] and the regex
+    parsers as an arbitrary oracle (a function of the regex and the token) that rejects gap tokens. *)
+Theorem C11_layout_invariant_lists : forall g l l' orx rx rx' fuel m,
+  Pem.LayoutRel.gap_safe_b g = true -> Pem.LayoutInv.layout_related_b g l l' = true ->
+  Pem.LayoutInv.rx_records orx l rx -> Pem.LayoutInv.rx_records orx l' rx' ->
+  (forall rid t, Pem.LayoutRel.gapb t = true -> In t l \/ In t l' -> orx rid t = false) ->
+  Pem.Model.parse_root g (Pem.Model.toks_of_list l) rx fuel (Pem.LayoutInv.cstart l) (Pem.LayoutInv.cend l) = Pem.Model.ROk m ->
+  Pem.LayoutInv.clean_b g m = true ->
+  exists m',
+    Pem.Model.parse_root g (Pem.Model.toks_of_list l') rx' fuel (Pem.LayoutInv.cstart l') (Pem.LayoutInv.cend l') = Pem.Model.ROk m'
+    /\ Pem.LayoutInv.clean_b g m' = true /\ Pem.LayoutInv.cview l' m' = Pem.LayoutInv.cview l m.
+Proof. exact Pem.LayoutInv.pem_layout_invariant_lists. Qed.
+Print Assumptions C11_layout_invariant_lists.
+
+(** Whatever the outcome, it is the same on both lists: success (same cleanliness, same code view),
+    parse error, the same abort, or out of fuel. *)
+Theorem C11_layout_same_outcome : forall g bs rx rx' fuel s s' e e',
+  Pem.LayoutRel.gap_safe_b g = true -> Forall (Pem.LayoutInv.blk_ok g) bs -> Pem.LayoutInv.rx_compat bs rx rx' ->
+  Pem.LayoutInv.Rb bs s s' -> Pem.LayoutInv.Rb bs e e' ->
+  match Pem.Model.parse_root g (Pem.Model.toks_of_list (Pem.LayoutInv.lleft bs)) rx fuel s e,
+        Pem.Model.parse_root g (Pem.Model.toks_of_list (Pem.LayoutInv.lright bs)) rx' fuel s' e' with
+  | Pem.Model.ROk m, Pem.Model.ROk m' =>
+      Pem.LayoutInv.clean_b g m' = Pem.LayoutInv.clean_b g m
+      /\ Pem.LayoutInv.cview (Pem.LayoutInv.lright bs) m' = Pem.LayoutInv.cview (Pem.LayoutInv.lleft bs) m
+  | Pem.Model.RErr, Pem.Model.RErr => True
+  | Pem.Model.RPanic p, Pem.Model.RPanic p' => p = p'
+  | Pem.Model.RFuel, Pem.Model.RFuel => True
+  | _, _ => False
+  end.
+Proof. exact Pem.LayoutInv.pem_layout_same_outcome. Qed.
+Print Assumptions C11_layout_same_outcome.
+
+(** The span handed to the root grammar (first to last code token) corresponds. *)
+Theorem C11_layout_code_span : forall g bs, Forall (Pem.LayoutInv.blk_ok g) bs ->
+  Pem.LayoutInv.Rb bs (Pem.LayoutInv.cstart (Pem.LayoutInv.lleft bs)) (Pem.LayoutInv.cstart (Pem.LayoutInv.lright bs))
+  /\ Pem.LayoutInv.Rb bs (Pem.LayoutInv.cend (Pem.LayoutInv.lleft bs)) (Pem.LayoutInv.cend (Pem.LayoutInv.lright bs)).
+Proof. exact Pem.LayoutInv.code_span_sim. Qed.
+Print Assumptions C11_layout_code_span.
+
+(** The clause "the last token of a gap keeps its class" cannot be dropped: same code tokens, every
+    gap still non-empty, every gap token invisible to the graph, and the parse is lost (a comment
+    directly before a keyword terminator; the guard of [greedy_match]). *)
+Theorem C11_layout_last_class_needed :
+  exists g bs fuel m,
+    Pem.LayoutRel.gap_safe_b g = true /\ Forall (Pem.LayoutEx.blk_ok_weak g) bs
+    /\ Pem.Model.parse_root g (Pem.Model.toks_of_list (Pem.LayoutInv.lleft bs)) [] fuel
+         (Pem.LayoutInv.cstart (Pem.LayoutInv.lleft bs)) (Pem.LayoutInv.cend (Pem.LayoutInv.lleft bs)) = Pem.Model.ROk m
+    /\ Pem.LayoutInv.clean_b g m = true
+    /\ forall m',
+         Pem.Model.parse_root g (Pem.Model.toks_of_list (Pem.LayoutInv.lright bs)) [] fuel
+           (Pem.LayoutInv.cstart (Pem.LayoutInv.lright bs)) (Pem.LayoutInv.cend (Pem.LayoutInv.lright bs)) = Pem.Model.ROk m' ->
+         Pem.LayoutInv.cview (Pem.LayoutInv.lright bs) m' <> Pem.LayoutInv.cview (Pem.LayoutInv.lleft bs) m.
+Proof. exact Pem.LayoutEx.layout_last_class_needed. Qed.
+Print Assumptions C11_layout_last_class_needed.
